@@ -31,8 +31,9 @@ OneShot   == {"gen", "iter", "citer"}
 Unordered == {"set", "frozenset"}
 AllKinds  == Mappings \cup Structs \cup NTs \cup SeqLike \cup OneShot
 
-\* element shapes: truthy scalar, falsy scalar, 2-tuple, 2-list, 3-tuple, 2-character string, character
-AllShapes == {"s", "z", "p", "l", "t", "s2", "c"}
+\* element shapes: truthy scalar, falsy scalar, 2-tuple, 2-list, 3-tuple, 2-character string, character, empty tuple
+\* "e": the empty tuple -- the very value a careless peek uses as its "nothing there" marker
+AllShapes == {"s", "z", "p", "l", "t", "s2", "c", "e"}
 PairShape(s)   == s \in {"p", "l"}                  \* what the statement calls a pair
 PairishImpl(s) == s \in {"p", "l", "s2"}            \* iscollectiontype(cls) /\ len == 2
 
@@ -44,6 +45,7 @@ Input == [kind : Kinds, elems : UNION {[1..n -> Shapes] : n \in 0..MaxLen}]
 WF(x) == /\ (x.kind \in {"str", "bytes"}) <=> (\A i \in 1..Len(x.elems) : x.elems[i] = "c")
          /\ (x.kind \notin {"str", "bytes"}) => (\A i \in 1..Len(x.elems) : x.elems[i] # "c")
          /\ (x.kind \in Unordered) => (\A i \in 1..Len(x.elems) : x.elems[i] # "l")   \* lists are unhashable
+         /\ Cardinality({i \in 1..Len(x.elems) : x.elems[i] = "e"}) <= 1               \* elements stay distinguishable
 
 (************************* reference layer *********************************)
 N(x) == Len(x.elems)
